@@ -26,6 +26,11 @@ type c09bCase struct {
 	BulkN    int   `json:"bulk_n,omitempty"`
 	BulkRTT  int64 `json:"bulk_rtt,omitempty"`
 	BulkRTT2 int64 `json:"bulk_rtt2,omitempty"`
+	// Align: sample indexes (mod the number of samples) whose start time is moved, at run time, so that the sample ends
+	// exactly at / one nanosecond before / one after the instant from which the next update is allowed (the boundary
+	// of the window period itself), whenever that keeps start times in order
+	Align    []int `json:"align,omitempty"`
+	AlignOff []int `json:"align_off,omitempty"`
 }
 
 // samples expands the case into the sequence fed to the limit.
@@ -87,6 +92,13 @@ func genC09b(t *rapid.T) c09bCase {
 		s.Drop = rapid.IntRange(0, 99).Draw(t, "drop") < dropPct
 		c.Samples = append(c.Samples, s)
 	}
+	if rapid.Bool().Draw(t, "align") {
+		k := rapid.IntRange(1, 6).Draw(t, "nAlign")
+		for i := 0; i < k; i++ {
+			c.Align = append(c.Align, rapid.IntRange(0, n-1).Draw(t, "alignAt"))
+			c.AlignOff = append(c.AlignOff, rapid.SampledFrom([]int{0, 0, -1, 1}).Draw(t, "alignOff"))
+		}
+	}
 	if rapid.IntRange(0, 24).Draw(t, "bulk") == 0 {
 		c.BulkAt = rapid.IntRange(0, n).Draw(t, "bulkAt")
 		c.BulkN = rapid.SampledFrom([]int{300, 5000, 32767, 65534, 65535, 65536, 65537, 70000, 131071, 131072}).Draw(t, "bulkN")
@@ -117,7 +129,25 @@ func runC09b(_ *testing.T, c c09bCase) kit.Outcome {
 	reset := func() {
 		minRTT, sum, count, maxInf, drop, windowHasDropBeforeClosing = math.MaxInt64, 0, 0, 0, false, false
 	}
-	for i, s := range c.samples() {
+	all := c.samples()
+	alignAt := map[int]int{}
+	if c.BulkN <= 0 {
+		for k, idx := range c.Align {
+			if k < len(c.AlignOff) && len(all) > 0 {
+				alignAt[idx%len(all)] = c.AlignOff[k]
+			}
+		}
+	}
+	var shift, lastStart int64 // later samples keep their distance to an aligned one
+	for i, s := range all {
+		s.Start += shift
+		if off, ok := alignAt[i]; ok && nextUpdate > 0 && !ambiguous {
+			if want := nextUpdate + int64(off) - s.RTT; want >= lastStart {
+				shift += want - s.Start
+				s.Start = want
+			}
+		}
+		lastStart = s.Start
 		if !ambiguous {
 			if s.RTT < c.Threshold {
 				subThresh = true
